@@ -136,6 +136,8 @@ func main() {
 		c10ReplayDescMain(os.Args[2:])
 	case "c10-canon-min":
 		c10CanonMinMain(os.Args[2:])
+	case "c10-key":
+		c10KeyMain(os.Args[2:])
 	case "c10-escalate":
 		c10EscalateMain(os.Args[2:])
 	case "c10-history-witness":
